@@ -169,6 +169,30 @@ Proof.
   intros s' Q U. apply good_final_spelled; [exact (A s' Q)|exact U].
 Qed.
 
+(* ---------- the bound on loops in flight restricts nothing ---------- *)
+Lemma next_any_K cf K s : 2 <= K -> length (loops s) <= 1 -> next cf K s = next cf 2 s.
+Proof.
+  intros HK HL. unfold next, internal. destruct (ok s); [|reflexivity].
+  f_equal. f_equal. unfold t_callback.
+  destruct (pend (co s)) as [|p]; [reflexivity|].
+  destruct (mux_free s); [|reflexivity].
+  destruct ((cb_manual cf && manual (co s)) || (cb_autorec cf && negb (autorec (co s))) || (single_loop cf && reconn (co s))); [reflexivity|].
+  assert (Nat.ltb (length (loops s)) K = true) as E1 by (apply Nat.ltb_lt; lia).
+  assert (Nat.ltb (length (loops s)) 2 = true) as E2 by (apply Nat.ltb_lt; lia).
+  rewrite E1, E2. reflexivity.
+Qed.
+
+Lemma c19_any_K : forall K, 2 <= K -> forall s,
+  reach (next tree_cfg K) init s ->
+  reach tnext init s /\ next tree_cfg K s = tnext s.
+Proof.
+  intros K HK s R. induction R as [|s s' R [IH E] Hs].
+  - split; [constructor|]. apply next_any_K; [exact HK|]. simpl. lia.
+  - assert (reach tnext init s') as R'.
+    { eapply reach_step; [exact IH|]. rewrite <- E. exact Hs. }
+    split; [exact R'|]. apply next_any_K; [exact HK|]. apply c19_loops_le. exact R'.
+Qed.
+
 (* ---------- the pinned tree and each repair left out: witnesses ---------- *)
 Definition L := TLoop 0 SOk.
 Definition w_stale := [ApiAnnounce; EDown; TCallback; ApiAnnounce; EUp; L; L; L; L].
